@@ -205,6 +205,10 @@ impl LayerContents {
             Err(NamingError::Missing(old.into()))
         } else if new == DEFAULT_LAYER_NAME && self.layers[0].name != old {
             Err(NamingError::ReservedName)
+        } else if old == new {
+            // Renaming a layer to its own name is a no-op; in particular, it
+            // must not overwrite (i.e. remove) itself.
+            Ok(())
         } else {
             let name = Name::new(new)?;
             if overwrite {
